@@ -176,5 +176,6 @@ UNIT = Unit(
         format_binary, format_str, format_binstr, format_hexstr, format_mif, format_c_array, format_separator, format_logisim, format_dump, format_bindump, format_hexdump,
     ],
     serves=["C11", "C03", "C19"],
+    carry_facts_into_loops=False,   # this unit's proofs need isolated loops (loop `ensures` clauses, or the solver runs out of resources with the wider context)
     description="util::BitVec formatters with a functional contract: raw binary, bit string, hex string, bit and hex dumps",
 )
